@@ -378,6 +378,13 @@ func VerifServeHandler(traced bool, reqHeaders http.Header, body *VerifScriptRea
 			rw.WriteHeader(http.StatusOK)
 		}
 	}()
+	if traced {
+		// when the cancel goroutine takes the trace it hands it to the collector on its own,
+		// possibly after the handler has returned: wait for the delivery
+		for i := 0; i < 5000 && coll.Count() == 0; i++ {
+			time.Sleep(time.Millisecond)
+		}
+	}
 	out.Completions = coll.Count()
 	out.Events = []string{}
 	if len(coll.Traces) > 0 {
